@@ -133,7 +133,10 @@ class UBI(Chain):
         if bitlen is None:
             bitlen=len(M)*8
         else:
-            M = (Bits(M,bitlen)//Bits(1,1)).bytes()
+            M = Bits(M,bitlen)
+            # the padding bit is appended only to an incomplete last byte
+            if bitlen%8: M = M//Bits(1,1)
+            M = M.bytes()
         # get BitPad flag:
         B = 1 if bitlen%8 else 0
         # pad M' into M'':
